@@ -160,6 +160,12 @@ func (e *Env) pause(n int) {
 // Start builds the sources and calls Params.Config. initLayers[i] is source
 // i's initial layer (nil = sets nothing).
 func Start(parent context.Context, seed uint64, o Opts, initLayers func(e *Env, i int) *Layer) (*Env, error) {
+	return StartWith(parent, seed, o, initLayers, nil)
+}
+
+// StartWith is Start with a hook to substitute the dials.Source used for
+// slot i (e.g. a sourcewrap.Blank); the model still tracks the slot.
+func StartWith(parent context.Context, seed uint64, o Opts, initLayers func(e *Env, i int) *Layer, subst func(i int, def dials.Source) dials.Source) (*Env, error) {
 	InstallHooks()
 	if o.NSrc <= 0 {
 		o.NSrc = 2
@@ -187,7 +193,11 @@ func Start(parent context.Context, seed uint64, o Opts, initLayers func(e *Env, 
 		}
 		ws := &WSrc{Src{Name: fmt.Sprintf("w%d", i), Init: l}}
 		e.Srcs = append(e.Srcs, ws)
-		sources = append(sources, ws)
+		if subst != nil {
+			sources = append(sources, subst(i, ws))
+		} else {
+			sources = append(sources, ws)
+		}
 	}
 	init.Cur = init.Slots
 	init.Verifying = !o.Delay
@@ -377,7 +387,7 @@ func (e *Env) FenceMonitor(ctx context.Context) bool {
 // and counts it (see SentinelsSent).
 func (e *Env) SendSentinel(ctx context.Context) bool {
 	for _, s := range e.Srcs {
-		if s != nil {
+		if s != nil && s.WA() != nil {
 			if s.WA().ReportError(ctx, ErrSentinel) == nil {
 				e.sentinels.Add(1)
 				return true
